@@ -24,7 +24,7 @@ CHECK_DEADLOCK FALSE
 def validate(module, traces, *, timeout=1800, chunk=4000, extra_cfg="", spec="Spec"):
     """Return (rejected, stats): rejected = {trace index (0-based): matched prefix length}."""
     rejected = {}
-    stats = {"traces": len(traces), "events": sum(len(t["ev"]) for t in traces), "states": 0,
+    stats = {"traces": len(traces), "events": sum(len(t.get("ev", t.get("log", []))) for t in traces), "states": 0,
              "transitions": 0, "wall": 0.0, "runs": 0}
     if not traces:
         return rejected, stats
